@@ -125,6 +125,17 @@ def dump_atom(k, d):
             'x': sorted(extra)}
 
 
+def dump_template(g):
+    """a fragment template as the resolver will iterate it: nodes in the graph's own iteration order (fresh keys are
+    handed out in that order), bonds in `G.edges` order"""
+    nodes = [dump_atom(k, d) for k, d in g.nodes(data=True)]
+    edges = []
+    for a, b, d in g.edges(data=True):
+        bd = d.get('bonding')
+        edges.append([a, b, order2(d.get('order', 1)), [bd[0], bd[1]] if bd else None])
+    return {'n': nodes, 'e': edges}
+
+
 def dump_mol(g, with_bonding=True):
     # sorted by key: the iteration order of the node dict is not part of any property (what depends on it —
     # first-match bonding, RDKit atom indices — shows in bonds / coordinates), so a rewrite that only changes
